@@ -149,6 +149,129 @@ func fastModeFact(b *ssa.BasicBlock, fast *types.Var) int {
 	return 0
 }
 
+// modeAt computes, by a forward must-analysis over the CFG of fn, whether
+// the map is known to be in fast mode (+1), slow mode (-1) or neither (0)
+// just before instruction at.
+func modeAt(fn *ssa.Function, fast *types.Var, at ssa.Instruction) int {
+	const (
+		unreached = 2
+		unknown   = 0
+	)
+	in := map[*ssa.BasicBlock]int{}
+	out := map[*ssa.BasicBlock]int{}
+	for _, b := range fn.Blocks {
+		in[b], out[b] = unreached, unreached
+	}
+	meet := func(a, b int) int {
+		switch {
+		case a == unreached:
+			return b
+		case b == unreached:
+			return a
+		case a == b:
+			return a
+		}
+		return unknown
+	}
+	edgeState := func(pred, succ *ssa.BasicBlock) int {
+		st := out[pred]
+		if st == unreached {
+			return unreached
+		}
+		if len(pred.Instrs) == 0 {
+			return st
+		}
+		ifi, ok := pred.Instrs[len(pred.Instrs)-1].(*ssa.If)
+		if !ok || len(pred.Succs) != 2 || pred.Succs[0] == pred.Succs[1] {
+			return st
+		}
+		be, ok := ifi.Cond.(*ssa.BinOp)
+		if !ok || (be.Op != token.NEQ && be.Op != token.EQL) {
+			return st
+		}
+		var other ssa.Value
+		if fieldLoad(be.X, fast) {
+			other = be.Y
+		} else if fieldLoad(be.Y, fast) {
+			other = be.X
+		} else {
+			return st
+		}
+		if !isNilConst(other) {
+			return st
+		}
+		taken := pred.Succs[0] == succ
+		if (be.Op == token.NEQ) == taken {
+			return 1
+		}
+		return -1
+	}
+	transfer := func(b *ssa.BasicBlock, st int, stop ssa.Instruction) int {
+		for _, ins := range b.Instrs {
+			if ins == stop {
+				return st
+			}
+			if callsNamed(ins, "fastToSlow") {
+				st = -1
+			}
+		}
+		return st
+	}
+	if len(fn.Blocks) == 0 {
+		return 0
+	}
+	changed := true
+	for iter := 0; changed && iter < 100; iter++ {
+		changed = false
+		for _, b := range fn.Blocks {
+			st := unreached
+			if b == fn.Blocks[0] {
+				st = unknown
+			}
+			for _, p := range b.Preds {
+				st = meet(st, edgeState(p, b))
+			}
+			o := st
+			if st != unreached {
+				o = transfer(b, st, nil)
+			}
+			if st != in[b] || o != out[b] {
+				in[b], out[b] = st, o
+				changed = true
+			}
+		}
+	}
+	b := at.Block()
+	if in[b] == unreached {
+		return 0
+	}
+	return transfer(b, in[b], at)
+}
+
+// switchedBefore: some fastToSlow() call can precede at on a path from the entry.
+func switchedBefore(fn *ssa.Function, at ssa.Instruction) bool {
+	for _, b := range fn.Blocks {
+		for _, ins := range b.Instrs {
+			if !callsNamed(ins, "fastToSlow") {
+				continue
+			}
+			if b == at.Block() {
+				for _, i2 := range b.Instrs {
+					if i2 == at {
+						break
+					}
+					if i2 == ins {
+						return true
+					}
+				}
+			} else if reaches(b, at.Block()) {
+				return true
+			}
+		}
+	}
+	return false
+}
+
 func callsNamed(ins ssa.Instruction, name string) bool {
 	call, ok := ins.(*ssa.Call)
 	if !ok {
@@ -191,36 +314,26 @@ func (c *Ctx) runFastMaps(prefix string, pkgs []*packages.Package) {
 				if isSwitch {
 					continue
 				}
-				mode := fastModeFact(acc.ins.Block(), ft.fast)
-				// after fastToSlow() in the same block the map is in slow mode
-				switched := false
-				for _, ins := range acc.ins.Block().Instrs {
-					if ins == acc.ins {
-						break
-					}
-					if callsNamed(ins, "fastToSlow") {
-						switched = true
-					}
+				// path-sensitive mode at the point where the map value is loaded
+				// (forward must-analysis: branch tests on fastMap refine the
+				// state per edge, fastToSlow() sets it to slow, joins keep only
+				// what all incoming paths agree on)
+				at := acc.ins
+				if ld, ok := acc.m.(*ssa.UnOp); ok {
+					at = ld
 				}
-				// the access instruction may be preceded by the load of the map
-				// value; what matters is that the LOAD happens after the switch
-				if ld, ok := acc.m.(*ssa.UnOp); ok && switched {
-					switched = false
-					for _, ins := range ld.Block().Instrs {
-						if ins == ssa.Instruction(ld) {
-							break
-						}
-						if callsNamed(ins, "fastToSlow") {
-							switched = true
-						}
-					}
+				mode := modeAt(fn, ft.fast, at)
+				switched := false
+				afterSwitch := switchedBefore(fn, at)
+				if mode == -1 && afterSwitch {
+					switched = true
 				}
 				switch {
 				case isFast && mode == 1 && !switched:
 					c.ok(prefix+".MODE", key, acc.ins.Pos(), "dominated by fastMap != nil")
 				case !isFast && (mode == -1 || switched):
 					c.ok(prefix+".MODE", key, acc.ins.Pos(), "dominated by fastMap == nil or follows fastToSlow()")
-				case isFast && switched:
+				case isFast && mode == -1 && afterSwitch:
 					c.bad(prefix+".MODE", key, acc.ins.Pos(), "fastMap is used after fastToSlow() set it to nil")
 				case isFast:
 					c.bad(prefix+".MODE", key, acc.ins.Pos(), "fastMap is accessed where the map may be in slow mode (not dominated by fastMap != nil): entries are missed or a nil map is written")
@@ -614,18 +727,25 @@ func (c *Ctx) runMeshRules(prefix string, pkgShort string) {
 		return
 	}
 	// MI.WRITERS: who modifies faces
+	// (one obligation per writer FUNCTION, not per store site: merging or
+	// splitting stores inside a mutator does not change the set of writers)
 	allowed := map[string]bool{"Add": true, "Remove": true, "NewMesh": true}
+	seenWriter := map[*ssa.Function]bool{}
 	for _, fn := range c.srcFuncs(p) {
 		for _, acc := range mapAccesses(fn, faces) {
 			if acc.kind != "update" && acc.kind != "delete" {
 				continue
 			}
-			c.analysed(qname(fn))
-			key := fmt.Sprintf("%s %s of Mesh.faces", qname(fn), acc.kind)
 			top := fn
 			for top.Parent() != nil {
 				top = top.Parent()
 			}
+			if seenWriter[top] {
+				continue
+			}
+			seenWriter[top] = true
+			c.analysed(qname(fn))
+			key := fmt.Sprintf("%s modifies Mesh.faces", qname(top))
 			isMeshMethod := top.Signature.Recv() != nil && strings.HasSuffix(top.Signature.Recv().Type().String(), ".Mesh")
 			if isMeshMethod && allowed[top.Name()] {
 				c.ok(prefix+".WRITERS", key, acc.ins.Pos(), "faces is modified by a mutator that also maintains the vertex index")
